@@ -33,6 +33,7 @@ func (g *GcsEmu) makeBucketListResults(ctx context.Context, baseUrl HttpBaseUrl,
 
 	moreResults := false
 	count := 0
+	lastName := "" // name of the last entry (item, or first object of a collapsed prefix) on this page
 	err := g.store.Walk(ctx, bucket, func(ctx context.Context, filename string, fInfo os.FileInfo) error {
 		dbgWalk("walk: %s", filename)
 
@@ -65,12 +66,7 @@ func (g *GcsEmu) makeBucketListResults(ctx context.Context, baseUrl HttpBaseUrl,
 			return nil
 		}
 
-		if count >= maxResults {
-			moreResults = true
-			return errAbort
-		}
-		count++
-
+		itemPrefix := ""
 		if delimiter != "" {
 			// See if the filename (beyond the prefix) contains delimiter, if it does, don't record the item,
 			// instead record the prefix (including the delimiter).
@@ -78,13 +74,25 @@ func (g *GcsEmu) makeBucketListResults(ctx context.Context, baseUrl HttpBaseUrl,
 			delimiterPos := strings.Index(withoutPrefix, delimiter)
 			if delimiterPos >= 0 {
 				// Got a hit, reconstruct the item's prefix, including the trailing delimiter
-				itemPrefix := filename[:len(prefix)+delimiterPos+len(delimiter)]
-				if !seenPrefixes[itemPrefix] {
-					seenPrefixes[itemPrefix] = true
-					prefixes = append(prefixes, itemPrefix)
+				itemPrefix = filename[:len(prefix)+delimiterPos+len(delimiter)]
+				// Already reported on this page, or (the cursor lies inside the group) on an earlier one.
+				if seenPrefixes[itemPrefix] || (cursor != "" && strings.HasPrefix(cursor, itemPrefix)) {
+					return nil
 				}
-				return nil
 			}
+		}
+
+		if count >= maxResults {
+			moreResults = true
+			return errAbort
+		}
+		count++
+		lastName = filename
+
+		if itemPrefix != "" {
+			seenPrefixes[itemPrefix] = true
+			prefixes = append(prefixes, itemPrefix)
+			return nil
 		}
 
 		found = append(found, item{
@@ -123,9 +131,8 @@ func (g *GcsEmu) makeBucketListResults(ctx context.Context, baseUrl HttpBaseUrl,
 	}
 
 	var nextPageToken = ""
-	if moreResults && len(items) > 0 {
-		lastItemName := items[len(items)-1].Name
-		nextPageToken = gcsutil.EncodePageToken(lastItemName)
+	if moreResults && lastName != "" {
+		nextPageToken = gcsutil.EncodePageToken(lastName)
 	}
 
 	rsp := storage.Objects{
